@@ -1,6 +1,7 @@
 import Okane.Lemmas.C13Perm
 import Okane.Lemmas.C13CmdFine
 import Okane.Lemmas.CmdTextEq
+import Okane.Lemmas.C13FormatImport
 /-!
 # C13 — same input, same output: runs are deterministic
 
@@ -932,4 +933,88 @@ example : evalTextScr cfgSorted none none ⟨2024, 2, 1⟩ (some "USD") lid.1.1 
   C13_eval_text ordSorted_string_ok none none _ _ lid lrev exLedgerX
 
 end CommandText
+end Okane.C13
+
+/-! ## `format` and `import` as whole commands (proved in `Lemmas/C13FormatImport.lean`)
+
+`C13_format` and `C13_import` were bare schemas above; these are their instances for the command models. -/
+namespace Okane.C13
+open Okane Okane.Import Okane.C13FI
+
+/-- **C13_format_cmd.**  `okane format FILE` (model `Unparse.format w`: `parse_ledger` + `Display` of every entry, `w` the
+display-width function): for every type of orders the text — or the parse error — is the same.  The model has no order
+parameter because `FormatOptions::format` iterates no hash map: the tree holds `Vec`s and is printed front to back
+(`C13_format_tree_order`). -/
+theorem C13_format_cmd {Orders : Type} (w : List Char → Nat) :
+    C13_format (Orders := Orders) (Input := List Char) (fun _ t => Unparse.format w t) :=
+  format_deterministic w
+
+/-- the printed text is a function of the parsed tree alone … -/
+theorem C13_format_tree (w : List Char → Nat) (t₁ t₂ : List Char) (h : Parse.parseEntries t₁ = Parse.parseEntries t₂) :
+    Unparse.format w t₁ = Unparse.format w t₂ :=
+  format_tree_only w t₁ t₂ h
+
+/-- … and is emitted in tree order: the text for a list of entries is the concatenation of the texts of its parts -/
+theorem C13_format_tree_order (w : List Char → Nat) (es es' : List Entry) :
+    Unparse.formatEntries w (es ++ es') = Unparse.formatEntries w es ++ Unparse.formatEntries w es' :=
+  formatEntries_append w es es'
+
+/-- **C13_import_partial.**  Orders = the iteration orders of the field maps (`HashMap<RewriteField, String>`) of all
+AND-elements; an importer that builds the transactions of each record from the record and `Extractor::extract` returns
+the same list of transactions for every order, on inputs where every element has at most one interacting field. -/
+theorem C13_import_partial {Rec Out : Type} (cap : Captures) (view : Rec → Record) (build : Rec → Fragment → List Out) :
+    C13_import (Orders := { π : List (Field × String) → List (Field × String) // IsRelayout π })
+      (Input := { x : List Rule × List Rec // ∀ rec ∈ x.2, RulesOneInteracting cap (view rec) x.1 })
+      (fun π x => x.1.2.flatMap fun rec => build rec (extract cap (reorderRules π.1 x.1.1) (view rec))) :=
+  import_deterministic cap view build
+
+/-- **C13_import_csv.**  The CSV importer (whole command after decoding and rule compilation) returns the same
+transactions / error for every iteration order of the rewrite rules' field maps, for every configuration whose field maps
+have distinct keys (every `HashMap` has): its only interacting field is `payee`, so F14 cannot occur for CSV.  (The order
+of `format.fields` and the error choice of rule compilation — F32 — are not part of the orders here.) -/
+theorem C13_import_csv (env : CsvEnv) (cfg : CsvCfg) (hk : KeysDistinct cfg.rewrite) :
+    C13_import (Orders := { π : List (Field × String) → List (Field × String) // IsRelayout π })
+      (Input := List String × List (List String))
+      (fun π x => csvImport env { cfg with rewrite := reorderRules π.1 cfg.rewrite } x.1 x.2) :=
+  fun π₁ π₂ x => csvImport_deterministic env cfg hk π₁ π₂ x.1 x.2
+
+/-- **C13_import_camt.**  The camt.053 importer (whole command after decoding), when every element has at most one
+interacting field on every record. -/
+theorem C13_import_camt (cap : Captures) (cfg : CamtCfg)
+    (h1 : ∀ e d, RulesOneInteracting cap (camtRecord e d) cfg.rewrite) :
+    C13_import (Orders := { π : List (Field × String) → List (Field × String) // IsRelayout π })
+      (Input := List Statement)
+      (fun π sts => camtImport cap { cfg with rewrite := reorderRules π.1 cfg.rewrite } [] sts) := by
+  intro π₁ π₂ sts
+  show camtImport cap { cfg with rewrite := reorderRules π₁.1 cfg.rewrite } [] sts =
+    camtImport cap { cfg with rewrite := reorderRules π₂.1 cfg.rewrite } [] sts
+  rw [camtImport_field_order cap cfg (rulesPerm_reorder π₁.2 _) h1, camtImport_field_order cap cfg (rulesPerm_reorder π₂.2 _) h1]
+
+/-- the unconditional statement for `import` stays **false** (F14) -/
+theorem C13_import_full_false : ¬ import_full := import_full_false
+
+/-- a rule whose element has both CSV fields -/
+def exCsvRules : List Rule :=
+  [{ matcher := .field ⟨[(.category, "Buy"), (.payee, "Migros")]⟩, account := some "Assets:Broker" }]
+
+def exCsvCfg : CsvCfg :=
+  { account := "Assets:Bank", accountType := .asset, operator := none, primary := "CHF", conversion := {},
+    rowOrder := .oldToNew, fields := [], rewrite := exCsvRules }
+
+theorem exCsvRules_keys : KeysDistinct exCsvCfg.rewrite := by
+  intro rule hr m hm
+  have hr' : rule = { matcher := .field ⟨[(.category, "Buy"), (.payee, "Migros")]⟩, account := some "Assets:Broker" } := by
+    simpa [exCsvCfg, exCsvRules] using hr
+  subst hr'
+  have hm' : m = ⟨[(.category, "Buy"), (.payee, "Migros")]⟩ := by simpa [Matcher.elements] using hm
+  subst hm'
+  decide
+
+/-- non-vacuity of `C13_import_csv`: the element in the other layout (`payee` first) — a different rule list -/
+example : reorderRules List.reverse exCsvRules ≠ exCsvRules := by decide
+example (header : List String) (records : List (List String)) :
+    csvImport ⟨fun _ => none, fun _ => none, exCap⟩ { exCsvCfg with rewrite := reorderRules List.reverse exCsvCfg.rewrite }
+      header records = csvImport ⟨fun _ => none, fun _ => none, exCap⟩ exCsvCfg header records :=
+  csvImport_field_order _ _ (rulesPerm_reorder (fun l => List.reverse_perm l) _) exCsvRules_keys header records
+
 end Okane.C13
